@@ -30,7 +30,17 @@ def main():
                 t = " tests:" + r.stdout.strip().splitlines()[-1][:60]
             r = sh("cd %s && PYVC_EVIDENCE_DIR=/tmp/pyvc-mutant-evidence ./check %s quick" % (R, m["property"]))
             v = [l for l in r.stdout.splitlines() if l.startswith("VIOLATION")]
-            res.append((m["id"], "exit=%d violations=%d%s %s" % (r.returncode, len(v), t, "" if r.returncode == 1 else "  <-- MISSED: " + r.stdout.strip().splitlines()[-1][:200])))
+            obl = []
+            for l in v:
+                try:
+                    obl.append(json.load(open(l.split("replay=")[1].split()[0]))["obligation"])
+                except Exception:
+                    pass
+            want = m.get("expect_obligation")
+            miss = "" if r.returncode == 1 else "  <-- MISSED: " + r.stdout.strip().splitlines()[-1][:200]
+            if want and not any(want in o for o in obl):
+                miss += "  <-- expected an obligation containing %r, got %s" % (want, obl[:4])
+            res.append((m["id"], "exit=%d violations=%d%s %s %s" % (r.returncode, len(v), t, miss, obl[:3] if "--show" in sys.argv else "")))
         finally:
             sh("git -C /repo checkout -- .")
     for r in res:
